@@ -32,7 +32,7 @@ def run(chk):
                        'serialization byte-identical; all 48 option sets denote the same JSON value up to defaulted optional properties; pretty output lists top-level '
                        'properties in specification order (frozen order); registration after a failed lookup still parses to the class.')
     chk.assume('simplejson encoder/decoder are inverse on JSON values (assumed external); NaN floats are outside the quantifier')
-    for c in (K.encoder_default_contract(False), K.encoder_default_contract(True), KT.format_datetime_contract(True), KT.parse_contract('str'), KP._fix_detect(KP.detect_contract()), KT.should_set_millisecond_contract('str'), KT.should_set_millisecond_contract('datetime'), KT.should_set_millisecond_contract('stixdatetime'), KC.observable_clean_contract()):
+    for c in (K.encoder_default_contract(False), K.encoder_default_contract(True), KT.format_datetime_contract(True), KT.parse_contract('str'), KT.parse_contract('datetime'), KT.parse_contract('stixdatetime'), KP._fix_detect(KP.detect_contract()), KT.should_set_millisecond_contract('str'), KT.should_set_millisecond_contract('datetime'), KT.should_set_millisecond_contract('stixdatetime'), KC.observable_clean_contract()):
         chk.prove(c); chk.canary(c)
     for name, claim in KT.lemmas()[:12 + 6 * 49:7]: chk.lemma(name, claim)
     for ob in purity_obligations(SRC_ROOT, ['stix2/registry.py::class_for_type', 'stix2/parsing.py::parse', 'stix2/parsing.py::dict_to_stix2', 'stix2/parsing.py::parse_observable',
